@@ -33,6 +33,8 @@ type C17Opts struct {
 	Range   *C17Range `json:"range"`
 	Options []string  `json:"options"`
 	Str     bool      `json:"str"`
+	Env     *string   `json:"env"`     // ",env=NAME": the value comes from that environment variable when it is set
+	Inherit bool      `json:"inherit"` // ",inherit": the value may come from the enclosing object
 }
 
 type C17Field struct {
@@ -162,6 +164,12 @@ func c17RenderTag(f C17Field) string {
 		}
 		if o.Str {
 			segs = append(segs, "string")
+		}
+		if o.Env != nil {
+			segs = append(segs, "env="+*o.Env)
+		}
+		if o.Inherit {
+			segs = append(segs, "inherit")
 		}
 	}
 	return `json:"` + strings.Join(segs, ",") + `"`
